@@ -89,6 +89,11 @@ def adaptive_stable(c, y, rng):
     return True
 
 
+def nlit(n):
+    """the oversampling factor for the model (an integer): a fractional factor below 2 is a factor below 2"""
+    return zlit(int(n)) if n == int(n) else ("1" if n < 2 else zlit(int(n)))
+
+
 class DrawRecorder:
     """replacement for numpy.random.normal during Weaver.noise: returns a fixed dyadic draw, records the arguments"""
 
@@ -234,6 +239,30 @@ Definition prog_ok (x : option (list Qc)) (y : list Qc) (e : option exn) (steps 
                 script = [chg, dict(req), {"op": "restore"}, dict(req)]
                 cases.append({"x": gens.sorted_x(rng, m, rng.choice(["uniform", "dyadic", "int"])), "y": gens.values(rng, m), "script": script, "seed": 1,
                               "len": len(script), "pool": [], "as_list": False, "int_x": False, "x_none": False, "invalid": False})
+        if "truncate_by_index" in pool and not self.exhaustive_domain:
+            # truncate_by_index with the stop omitted when reference and working series have different lengths (after down-sampling the
+            # reference is longer, after a recreation shorter): all series are cut at the same abscissae ... by Python's slice rule
+            for pre in ([{"op": "interpolate", "n": 5, "method": "linear"}], [{"op": "interpolate", "n": 4, "method": "constant"}],
+                        [{"op": "recreate", "n": 3, "strategy": "pc", "alpha": 1.0, "a": None, "beta": 0.5, "exp": 2.0, "smooth": 1.0}]):
+                if pre[0]["op"] not in pool:
+                    continue
+                m = rng.randint(8, 11)
+                for start in (1, 2):
+                    script = pre + [{"op": "truncate_by_index", "start": start, "stop": None}]
+                    cases.append({"x": gens.sorted_x(rng, m, rng.choice(["uniform", "dyadic", "int"])), "y": gens.values(rng, m), "script": script, "seed": 1,
+                                  "len": len(script), "pool": [], "as_list": False, "int_x": False, "x_none": False, "invalid": False})
+        if "truncate_by_value" in pool:
+            # a truncation bound of exactly 0 (falsy in Python) strictly inside the range, on either side, also after a shift
+            zx_ = [-3.0, -2.0, -1.0, 0.5, 1.0, 2.0, 3.0]
+            zy_ = [4.0, 7.5, 1.25, 9.0, 3.5, 6.0, 2.0]
+            for script in ([{"op": "truncate_by_value", "l": 0.0, "r": 2.0, "lr": False, "rr": False}],
+                           [{"op": "truncate_by_value", "l": -2.0, "r": 0.0, "lr": False, "rr": False}],
+                           [{"op": "truncate_by_value", "l": 0, "r": 2.5, "lr": False, "rr": False}],
+                           [{"op": "shift_x", "v": -0.25}, {"op": "truncate_by_value", "l": -2.5, "r": 0.0, "lr": False, "rr": False}],
+                           [{"op": "truncate_by_value", "l": 0.0, "r": 0.75, "lr": False, "rr": True}]):
+                if all(s_["op"] in pool for s_ in script):
+                    cases.append({"x": zx_, "y": zy_, "script": script, "seed": 1, "len": len(script), "pool": [], "as_list": False, "int_x": False,
+                                  "x_none": False, "invalid": False})
         if self.queries or self.invalid:
             # zero as a bound (falsy in Python): on a series straddling 0, and as a value that is not a sample
             zx = [-3.0, -2.0, -1.0, 0.0, 1.0, 2.0, 3.0]
@@ -327,6 +356,12 @@ Definition prog_ok (x : option (list Qc)) (y : list Qc) (e : option exn) (steps 
                     v = round(v * 64) / 64
                 return float(v)
             l, r = bound(i + 1, lr, "l"), bound(j, rr, "r")
+            if x[0] < 0 < x[-1] and rng.random() < 0.5:
+                # a bound of exactly 0 (falsy in Python) strictly inside the range: it is a bound like any other
+                if not lr and (rr or r > 0) and rng.random() < 0.5:
+                    l = 0.0
+                elif not rr and (lr or l < 0):
+                    r = 0.0
             # ratios refer to each series' own span: on a reshaped Weaver the same request may denote an empty / inverted range
             # of the REFERENCE series (legitimately refused); such requests are not drawn as valid ones
             rx_ = np.asarray(w.reference_x, dtype=float)
@@ -376,7 +411,9 @@ Definition prog_ok (x : option (list Qc)) (y : list Qc) (e : option exn) (steps 
             M = rng.randint(2, min(MAXLEN, n + 6))
             inner = sorted({float(x[0] + (x[-1] - x[0]) * rng.randint(1, 63) / 64) for _ in range(M - 2)})
             g = [float(x[0])] + [v for v in inner if x[0] < v < x[-1]] + [float(x[-1])]
-            return {"op": name, "new_x": g, "as_list": rng.random() < 0.5, "method": method}
+            # "new_x ... overrides the n parameter": sometimes both are given (a wrapper that always forwards n)
+            return {"op": name, "new_x": g, "as_list": rng.random() < 0.5, "method": method,
+                    "also_n": rng.choice([None, None, len(g), 5, 2, len(g) + 3])}
         if name == "trend":
             return {"op": name, "coef": rng.choice(POLYS), "normalized": rng.random() < 0.5, "fn_kind": rng.choice(["array", "array", "scalar_only", "branching"])}
         if name == "smooth":
@@ -411,7 +448,7 @@ Definition prog_ok (x : option (list Qc)) (y : list Qc) (e : option exn) (steps 
 
         def near(v):
             return max(abs(float(v)) * 2.0 ** -20, 2.0 ** -30)
-        d = {"n_below_2": {"op": "recreate", "n": rng.choice([1, 0, -3]), "strategy": rng.choice(["pc", "linfixed", "linadapt", "expfixed", "expadapt", "cubic"]),
+        d = {"n_below_2": {"op": "recreate", "n": rng.choice([1, 0, -3, 1.5, 1.75, 0, 1]), "strategy": rng.choice(["pc", "linfixed", "linadapt", "expfixed", "expadapt", "cubic"]),
                            "alpha": 1.0, "a": None, "beta": 0.5, "exp": 2.0, "smooth": 1.0},
              "rule_t": {"op": "integral_match", "rt": "simpson", "rr": "rectangle", "alpha": 1.0},
              "rule_r": {"op": "integral_match", "rt": "trapezoid", "rr": "simpson", "alpha": 1.0},
@@ -441,6 +478,8 @@ Definition prog_ok (x : option (list Qc)) (y : list Qc) (e : option exn) (steps 
                                   "stop": float(x[-1]) - near(x[-1]), "step": 1},
              "interp_none": {"op": "interpolate", "method": "linear"},
              }[kind]
+        if kind in ("grid_ends", "grid_ends_permuted", "grid_ends_near") and rng.random() < 0.4:
+            d["also_n"] = rng.choice([len(d["new_x"]), 5])      # the explicit grid still overrides n, and is still checked
         if kind == "slice_value_absent" and d["start"] is None and d["stop"] is None:
             d["start"] = mid
         d["invalid"] = kind
@@ -498,7 +537,10 @@ Definition prog_ok (x : option (list Qc)) (y : list Qc) (e : option exn) (steps 
                 w.interpolate(n=o["n"], **mkw) if not om else w.interpolate(o["n"], **mkw)
             elif "new_x" in o:
                 g = list(o["new_x"]) if o["as_list"] else np.array(o["new_x"], dtype=float)
-                w.interpolate(new_x=g, **mkw)
+                if o.get("also_n") is not None:
+                    w.interpolate(n=o["also_n"], new_x=g, **mkw) if not om else w.interpolate(o["also_n"], g, **mkw)
+                else:
+                    w.interpolate(new_x=g, **mkw)
             else:
                 w.interpolate(method=o["method"])
         elif name == "trend":
@@ -675,7 +717,8 @@ Definition prog_ok (x : option (list Qc)) (y : list Qc) (e : option exn) (steps 
                 st["caller_changed"] = not (np.array_equal(xin, cx) and np.array_equal(yin, cy))
                 out["steps"].append(st)
                 bad_state = any(s is None for s in st["state"]) or not all_finite(*[s for s in st["state"] if s is not None]) \
-                    or any(k_ != "ndarray" for k_ in st["kinds"]) or min(len(s) for s in st["state"] if s is not None) < 4
+                    or any(k_ != "ndarray" for k_ in st["kinds"]) \
+                    or (script is None and min(len(s) for s in st["state"] if s is not None) < 4)   # (scripted programs run to their end: C02 speaks of series of 2 points too)
                 if bad_state:
                     break   # nothing sensible can follow (the oracle judges this step)
         if twin is not None:
@@ -701,9 +744,9 @@ Definition prog_ok (x : option (list Qc)) (y : list Qc) (e : option exn) (steps 
             return "OTruncIdx %s %s" % (zlit(o["start"]), optz(o["stop"]))
         if n == "recreate":
             if o["strategy"] == "cubic":
-                return "ORecreateOracle %s %s" % (zlit(o["n"]), qlist(st["state"][1] or []))
+                return "ORecreateOracle %s %s" % (nlit(o["n"]), qlist(st["state"][1] or []))
             stc, pw, gp = rfa_units.RfaUnit(()).coq_strategy(o)
-            return "ORecreate %s (%s) (%s) %s" % (zlit(o["n"]), pw.replace("id", "fun t => t"), gp.replace("id", "fun t => t"), stc)
+            return "ORecreate %s (%s) (%s) %s" % (nlit(o["n"]), pw.replace("id", "fun t => t"), gp.replace("id", "fun t => t"), stc)
         if n == "integral_match":
             if "fixed_values" in o:
                 mode = "(ByValues %s)" % qlist(o["fixed_values"])
